@@ -78,14 +78,26 @@ Proof. exact lex_numbers. Qed.
 (** the layout half of the property: the tree depends on the sequence of tokens — kinds and spellings — only.
     However the two sources arrange whitespace, ignorable punctuation, comments and line layout between the same
     tokens (byte offsets, ranges, line numbers and lexer post-states all differ), the parser returns trees that are
-    equal after erasing source positions, or rejects both.  [tksim] also asks that the raw text after a
-    `says` / `say` token up to the end of its line agrees (poetic strings are raw text) *)
+    equal after erasing source positions, or rejects both.  Poetic strings are raw text: [tksim] asks that the raw
+    text after a `says` token up to the end of its line agrees, [say_texts_agree] the same for a `say` token that is
+    not the first token of its line (the only place where the parser takes `say` for `says`) *)
 Theorem C02_tree_depends_on_tokens_only :
   forall prof src src' pts pts',
   lex prof src = Ok pts -> lex prof src' = Ok pts' ->
   tksim src src' (drop_comments pts) (drop_comments pts') ->
+  say_texts_agree src src' (drop_comments pts) (drop_comments pts') ->
   same_parse (parse prof src) (parse prof src').
 Proof. exact parse_layout_invariant. Qed.
+
+(** when every `say` starts a line (decidable; true of every program that does not write `say` for `says`) the
+    second condition is void *)
+Theorem C02_tree_depends_on_tokens_only_say :
+  forall prof src src' pts pts',
+  lex prof src = Ok pts -> lex prof src' = Ok pts' ->
+  tksim src src' (drop_comments pts) (drop_comments pts') ->
+  say_starts_lines true (drop_comments pts) = true ->
+  same_parse (parse prof src) (parse prof src').
+Proof. exact parse_layout_invariant_say. Qed.
 
 Theorem C02_token_relation_reflexive : forall b l, tksim b b l l.
 Proof. exact tksim_refl. Qed.
